@@ -280,3 +280,51 @@ def c16(tier, seed):
         "by the value-graph engine on buffers of exactly the documented size, where any access outside the buffer is "
         "reported. Positive controls must be recognised on every run.",
         trusted_base=["rustc MIR", "layout facts", "engine/interp.py pointer model"], coverage_extra={"exhaustive": True})
+
+
+from . import check_blake, par
+
+
+class _range_fn:
+    """picklable `positions` callable: the buffer positions lo..hi-1"""
+
+    def __init__(self, lo, hi):
+        self.lo, self.hi = lo, hi
+
+    def __call__(self, bb):
+        return range(self.lo, min(self.hi, bb))
+
+
+@check("C04")
+def c04(tier, seed):
+    r = Report("C04", tier, TV, seed)
+    cfgs = ["K1", "K2"] if tier == "thorough" else ["K1"]
+    for c in cfgs:
+        facts.load(c)
+    jobs = []
+    for c in cfgs:
+        jobs.append((check_blake.c04_compress, (c,)))
+        jobs.append((check_blake.c04_default, (c,)))
+        jobs.append((check_blake.c04_dispatch, (c,)))
+        for name, variant in check_blake.VARIANTS.items():
+            bb = check_blake.B.PARAMS[variant][2]
+            for lo in range(0, bb, 16):
+                jobs.append((check_blake.c04_finalize, (c, _range_fn(lo, lo + 16), name)))
+    rets = par.run(r, jobs)
+    n = sum(x for (fn, _), x in zip(jobs, rets) if fn is check_blake.c04_compress and x)
+    nf = sum(x for (fn, _), x in zip(jobs, rets) if fn is check_blake.c04_finalize and x)
+    r.floor("compression instances (word size x machine)", n, 8 if tier == "quick" else 10)
+    r.floor("finalisation specialisations (variant x buffer position)", nf, 384 if tier == "quick" else 768)
+    r.assumptions = ["spec/blake.py follows the BLAKE final-round document; constants recomputed from pi and square roots of primes; validated against the submission's test vectors",
+                     "block-buffer 0.9 is analysed through its real MIR (no summary); core slice functions are modelled",
+                     "message length below 2^64 (2^128) bits: the t.1 += 1 overflow check beyond that is outside the property's domain"]
+    return r.finish(
+        "R4.1: put_block<M> for every Machine instantiation (SSE2, SSSE3, SSE4.1/AVX, AVX2; portable in thorough) on a "
+        "symbolic chaining value, block and counter equals the specified compression function (14/16 rounds, sigma, pi "
+        "constants, rotations) bit for bit. R4.5: the same through the run-time dispatcher with all arms joined. "
+        "R4.2: Default gives the specified IV, zero counter, empty buffer. R4.3/R4.4: finalize_into_dirty, with the "
+        "compression function as an uninterpreted symbol on both sides, for EVERY buffer position 0..63 / 0..127 of all "
+        "four variants on symbolic buffered bytes, chaining value and counter: the sequence of (block, counter) pairs fed "
+        "to the compression function and the truncated big-endian output equal the specified padding (0x80, marker bit, "
+        "64/128-bit length, one vs. two blocks, zero counter for padding-only blocks).",
+        trusted_base=["spec/blake.py", "engine/models.py", "engine/bv.py"], coverage_extra={"exhaustive": True})
